@@ -261,6 +261,13 @@ var Layouts = []Layout{
 	{Name: "receiver-brace-other", Top: true, Pre: "templ (", Post: ") M(b string) {\n\t<i></i>\n}\n", Toks: []string{`r`, `recv`}},
 	{Name: "css-params", Top: true, Pre: "css k(", Post: ") {\n\tcolor: red;\n}\n", Toks: []string{`v interface{}`, `,`, `a string`}},
 	{Name: "css-params-other", Top: true, Pre: "css k(", Post: ") {\n\tcolor: red;\n}\n", Toks: []string{`v interface{}`, `,`, `b string`}},
+	// another expression on the line where a multi-line expression ends
+	{Name: "call-multiline-then-child", Pre: "\t@c2(up(", Post: "), b) { <b>{ s }</b> }", Toks: []string{`s`, `,`, `"x"`}},
+	{Name: "attr-multiline-then-class", Pre: "\t<div id={ up(", Post: ") } class={ s }>x</div>", Toks: []string{`s`, `,`, `"x"`}},
+	{Name: "attr-multiline-then-attrs", Pre: "\t<div title={ up(", Post: ") } lang={ s } hidden?={ b }>{ s }</div>", Toks: []string{`s`, `,`, `"x"`}},
+	// white space in front of the closing brace of a script / css template
+	{Name: "script-close-brace", Top: true, Pre: "script j(a string) {\n\t", Post: "\n", Toks: []string{`console.log(a);`, "\n", "\t", `}`}},
+	{Name: "css-close-brace", Top: true, Pre: "css k() {\n\t", Post: "\n", Toks: []string{`color: red;`, "\n", "\t", `}`}},
 	{Name: "params", Top: true, Pre: "templ L(", Post: ") {\n\t<i></i>\n}\n", Toks: []string{`s`, `string`, `,`, `b`, `bool`}},
 	{Name: "params-comma", Top: true, Pre: "templ L(", Post: ") {\n\t<i></i>\n}\n", Toks: []string{`s, t string`, `,`, `b bool`, `,`}},
 	{Name: "css-prop", Top: true, Pre: "css k(w string) {\n\tcolor: red;\n\twidth: {", Post: "};\n}\n", Toks: []string{`up(`, `w`, `)`}},
